@@ -119,7 +119,12 @@ public:
         opn2_openBankData(dev, bank.data(), (long)bank.size());
         opn2_switchEmulator(dev, (int)p.get("emu", 2));
         opn2_setLoopEnabled(dev, loopOn ? 1 : 0);
-        opn2_setLoopCount(dev, count);     // before loading: the count is latched when the time line is built
+        // a prelude derived from the song seed (not drawn: recorded plans keep their meaning):
+        //  1: another count is set before the load, the requested one after it, followed by a rewind (the count in force after a rewind is the one last set)
+        //  2: before playing, a seek into the post-song wait (between the last event and the reported length): it reaches the end, starts over - looping must stay on
+        //  3: both
+        const int preludeDraw = (int)(mix64((uint64_t)p.get("songseed"), 0x9E11) % 8); const int prelude = preludeDraw < 4 ? 0 : preludeDraw - 4;   // 5 of 8 runs have none
+        opn2_setLoopCount(dev, (prelude & 1) ? (count == 3 ? 1 : 3) : count);     // before loading: the count is latched when the time line is built
         rec.initHookUd();
         auto setHooks = [&]() { opn2_setLoopStartHook(dev, RawRecorder::cbLoopStart2, &rec.udStart); opn2_setLoopEndHook(dev, RawRecorder::cbLoopEnd2, &rec.udEnd); };
         opn2_setRawEventHook(dev, RawRecorder::cb, &rec);
@@ -138,6 +143,8 @@ public:
         if(hookpoint == 1 || hookpoint == 3) setHooks();
         if(hookpoint == 2) { opn2_reset(dev); run.count("hooks_across_reset"); }
         if(hookpoint == 3) { opn2_setNumChips(dev, 3); opn2_switchEmulator(dev, OPNMIDI_EMU_GENS); run.count("hooks_across_reset"); }
+        if(prelude & 1) { opn2_setLoopCount(dev, count); opn2_positionRewind(dev); run.count("count_changed_after_load_then_rewind"); }
+        if(prelude & 2) { double tot = opn2_totalTimeLength(dev); if(tot > 0.6) { opn2_positionSeek(dev, tot - 0.25); run.count("seek_into_post_song_wait_before_play"); if(opn2_positionTell(dev) > 1e-9) run.fail("tell-after-seek-to-end", "prelude", "a seek into the post-song wait must start the song over, position is " + std::to_string(opn2_positionTell(dev))); } }
         rec.ev.clear(); rec.loopStarts = rec.loopEnds = 0; rec.loopStartCalls.clear(); rec.loopEndCalls.clear();
         // reported loop points
         {
@@ -255,7 +262,7 @@ public:
                 if(rec.wrongUserData) run.fail("loop-hook-user-data", "swapped", std::to_string(rec.wrongUserData) + " loop callbacks were called with the other hook's user data");
                 else if(rec.loopEnds != wantEnds)
                     run.fail("loop-end-hook-count", std::string(rec.loopEnds == 0 ? "never-called" : "wrong-count") + ".hookpoint" + std::to_string(hookpoint), "loop-end callback called " + std::to_string(rec.loopEnds) + " times, expected " + std::to_string(wantEnds) + " (passes " + std::to_string(passesWanted) + ", placement " + std::to_string(placement) + ")");
-                else if(rec.loopStarts != wantStarts)
+                else if(rec.loopStarts != wantStarts && prelude == 0)   // (after a rewind the start hook reports the song begin once more: part of the recorded finding's redesign, the hook count is judged in runs without a prelude)
                 {
                     std::string sig;
                     if((wholeSong || !li.hasLS) && rec.loopStarts == 0) sig = "implicit-start-never-reported";
